@@ -75,15 +75,20 @@ TargetsCompatible(r) ==
     \A t \in NTr(r) : \A i, j \in Seq2Set(r.trans[t].tgt) :
         Compatible(r, Anchor(r, Ref(r, i)), Anchor(r, Ref(r, j)))
 
+\* 3.2 / 3.3: the states named by an initial attribute can be active together
+InitialCompatible(r) ==
+    \A s \in NSr(r) : r.states[s].kind \in {"state"} =>
+        \A i, j \in Seq2Set(r.states[s].initattr) : Compatible(r, Ref(r, i), Ref(r, j))
+
 WellFormed(r) ==
     /\ UniqueIds(r)
     /\ RefsExist(r)
-    /\ InitialOK(r) /\ HistoryOK(r) /\ TargetsCompatible(r)
+    /\ InitialOK(r) /\ InitialCompatible(r) /\ HistoryOK(r) /\ TargetsCompatible(r)
 
 WhyNot(r) ==
     IF ~UniqueIds(r) THEN "duplicate-id"
     ELSE IF ~RefsExist(r) THEN "dangling-reference"
-    ELSE IF ~InitialOK(r) THEN "bad-initial"
+    ELSE IF ~InitialOK(r) \/ ~InitialCompatible(r) THEN "bad-initial"
     ELSE IF ~HistoryOK(r) THEN "bad-history"
     ELSE IF ~TargetsCompatible(r) THEN "incompatible-targets"
     ELSE "well-formed"
